@@ -230,8 +230,10 @@ class Array:
             if not isinstance(value, Sized):
                 value = list(value)
             if len(value) == items_in_slice:
-                for s, v in zip(range(start, stop, step), value):
-                    self.data.overwrite(self._create_element(v), s * self._dtype.length)
+                # Create all the new elements first, so that nothing gets changed if one of the values is invalid.
+                new_elements = [self._create_element(v) for v in value]
+                for s, element in zip(range(start, stop, step), new_elements):
+                    self.data.overwrite(element, s * self._dtype.length)
             else:
                 raise ValueError(f"Can't assign {len(value)} values to an extended slice of length {items_in_slice}.")
         else:
